@@ -9,11 +9,12 @@ pub fn stub_format(_a: core::fmt::Arguments<'_>) -> String { String::new() }
 // ---- C16: ChildLimit::from_solar_time on the real body: luck runs forward exactly for Yang-year men and Yin-year women, and the
 // Jie handed to the strategy object is the one that opens the birth's term month when luck runs backward, the next one when it
 // runs forward. The eight characters of the birth, the governing term and the strategy's answer are stubs (arbitrary year
-// pillar and term index); the enum equalities (implemented through to_string) are replaced by discriminant comparison.
+// pillar of the given polarity and arbitrary term index).
 use crate::tyme::sixtycycle::verif_k::{cheap_cycle, faithful_stem_from_index};
 use crate::tyme::solar::verif_k::{mk_term, mk_time};
 use crate::tyme::lunar::verif_k::mk_lunar_hour;
 use crate::tyme::enums::{Gender, YinYang};
+use crate::tyme::lunar::LunarHour;
 static mut CL_YP: isize = -7961;
 static mut CL_TI: isize = -7962;
 static mut CL_STEPS: isize = -7963;
@@ -27,30 +28,34 @@ fn cl_get_info(_p: &DefaultChildLimitProvider, birth_time: SolarTime, term: Sola
   unsafe { CL_INFO_TERM = term.get_index() as isize; CL_INFO_CALLS += 1; }
   ChildLimitInfo { start_time: birth_time, end_time: birth_time, year_count: 0, month_count: 0, day_count: 0, hour_count: 0, minute_count: 0 }
 }
-fn yy_eq(a: &YinYang, b: &YinYang) -> bool { matches!((a, b), (YinYang::YIN, YinYang::YIN) | (YinYang::YANG, YinYang::YANG)) }
-fn gender_eq(a: &Gender, b: &Gender) -> bool { matches!((a, b), (Gender::MAN, Gender::MAN) | (Gender::WOMAN, Gender::WOMAN)) }
 
-#[kani::proof]
-#[kani::unwind(61)]
-#[kani::stub(alloc::fmt::format, stub_format)]
-#[kani::stub(SolarTime::get_lunar_hour, cl_get_lunar_hour)]
-#[kani::stub(LunarHour::get_eight_char, cl_get_eight_char)]
-#[kani::stub(SolarTime::get_term, cl_get_term)]
-#[kani::stub(<SolarTerm as Tyme>::next, cl_term_next)]
-#[kani::stub(<DefaultChildLimitProvider as ChildLimitProvider>::get_info, cl_get_info)]
-#[kani::stub(<YinYang as PartialEq>::eq, yy_eq)]
-#[kani::stub(<Gender as PartialEq>::eq, gender_eq)]
-#[kani::stub(HeavenStem::from_index, faithful_stem_from_index)]
-fn c16_k_direction() {
-  let yp: isize = kani::any(); let ti: isize = kani::any(); let man: bool = kani::any();
-  kani::assume(yp >= 0 && yp < 60 && ti >= 0 && ti < 24);
-  unsafe { CL_YP = yp; CL_TI = ti; CL_STEPS = 0; CL_INFO_CALLS = 0; }
-  let r = ChildLimit::from_solar_time(mk_time(2000, 6, 15, 10, 20, 30), if man { Gender::MAN } else { Gender::WOMAN });
-  let yang_year = yp % 2 == 0;                         // stems 甲丙戊庚壬 (even index) are Yang
-  assert!(r.forward == (yang_year == man), "luck runs forward exactly for Yang-year men and Yin-year women");
-  let jie = if ti % 2 == 1 { ti } else { ti - 1 };       // the Jie that opens the term month of the birth
-  let want = jie + if r.forward { 2 } else { 0 };
-  assert!(unsafe { CL_INFO_CALLS } == 1 && unsafe { CL_STEPS } == want - ti && unsafe { CL_INFO_TERM } as i64 == spec::emod(want as i64, 24), "the governing Jie: the one before (or at) birth when backward, the next one when forward");
-  core::mem::forget(r);
-  kani::cover!(man && !yang_year && ti == 0, "direction reachable (Yin-year man at a winter solstice)");
-}
+// one harness per (year polarity, gender): the enum equalities go through to_string(), which CBMC folds only for concrete values
+macro_rules! direction_harness { ($name:ident, $yang:expr, $man:expr) => {
+  #[kani::proof]
+  #[kani::unwind(61)]
+  #[kani::stub(alloc::fmt::format, stub_format)]
+  #[kani::stub(SolarTime::get_lunar_hour, cl_get_lunar_hour)]
+  #[kani::stub(LunarHour::get_eight_char, cl_get_eight_char)]
+  #[kani::stub(SolarTime::get_term, cl_get_term)]
+  #[kani::stub(<SolarTerm as Tyme>::next, cl_term_next)]
+  #[kani::stub(<DefaultChildLimitProvider as ChildLimitProvider>::get_info, cl_get_info)]
+  #[kani::stub(HeavenStem::from_index, faithful_stem_from_index)]
+  fn $name() {
+    let half: isize = kani::any(); let ti: isize = kani::any();
+    kani::assume(half >= 0 && half < 30 && ti >= 0 && ti < 24);
+    let yang_year: bool = $yang; let man: bool = $man;
+    let yp = 2 * half + if yang_year { 0 } else { 1 };    // stems 甲丙戊庚壬 (even index) are Yang
+    unsafe { CL_YP = yp; CL_TI = ti; CL_STEPS = 0; CL_INFO_CALLS = 0; }
+    let r = ChildLimit::from_solar_time(mk_time(2000, 6, 15, 10, 20, 30), if man { Gender::MAN } else { Gender::WOMAN });
+    assert!(r.forward == (yang_year == man), "luck runs forward exactly for Yang-year men and Yin-year women");
+    let jie = if ti % 2 == 1 { ti } else { ti - 1 };       // the Jie that opens the term month of the birth
+    let want = jie + if r.forward { 2 } else { 0 };
+    assert!(unsafe { CL_INFO_CALLS } == 1 && unsafe { CL_STEPS } == want - ti && unsafe { CL_INFO_TERM } as i64 == spec::emod(want as i64, 24), "the governing Jie: the one before (or at) birth when backward, the next one when forward");
+    core::mem::forget(r);
+    kani::cover!(ti == 0, "direction reachable (birth in the winter-solstice term)");
+  }
+} }
+direction_harness!(c16_k_direction_yang_man, true, true);
+direction_harness!(c16_k_direction_yang_woman, true, false);
+direction_harness!(c16_k_direction_yin_man, false, true);
+direction_harness!(c16_k_direction_yin_woman, false, false);
